@@ -1,0 +1,14 @@
+//go:build verif
+
+package ints
+
+// Contracts for the verification machinery in /verif (comment-only file; no code).
+
+//@ func Sum
+//@   requires len(a) <= 16777216
+//@   requires forall k in 0..len(a): 0 <= a[k] && a[k] <= 16777216
+//@   ensures 0 <= result && result <= len(a) * 16777216
+//@   loop 1
+//@     invariant -1 <= rangeindex && (rangeindex < len(a) || (len(a) == 0 && rangeindex == -1))
+//@     invariant 0 <= sum && sum <= (rangeindex + 1) * 16777216
+//@     decreases len(a) - rangeindex
